@@ -384,6 +384,37 @@ def C12_failed_replace_import_empties_store():
         return len(db.list_hosts()) != 1
     finally: shutil.rmtree(d)
 
+@witness
+def C15_no_timer_during_pyopenssl_handshake():
+    """A peer that connects to the PyOpenSSL-backed server and stays silent (or stops mid-handshake) must be
+    disconnected by a timer; before the fix no timer exists until the handshake has completed."""
+    import tlsmem
+    from nauyaca.server.protocol import GeminiServerProtocol
+    from nauyaca.protocol.response import GeminiResponse
+    async def go():
+        loop = asyncio.get_running_loop()
+        timers = []
+        real = loop.call_later
+        def spy(delay, cb, *a, **k):
+            h = real(delay, cb, *a, **k); timers.append((delay, h)); return h
+        loop.call_later = spy
+        try:
+            pair = tlsmem.Pair(lambda: GeminiServerProtocol(lambda r: GeminiResponse(20, "text/plain", "x")))
+            # the client sends only its ClientHello and then goes silent
+            try: pair.client.do_handshake()
+            except Exception: pass
+            pair.to_server()
+            armed = [t for t in timers if not t[1].cancelled()]
+            if not armed: return True
+            # fire it: the TCP connection must get closed
+            for d, h in armed: h._run()
+            closed = pair.tcp.closed
+            for d, h in timers: h.cancel()
+            return not closed
+        finally:
+            del loop.call_later
+    return asyncio.run(go())
+
 # MAIN
 if __name__ == "__main__":
     names = sys.argv[1:] or sorted(W)
